@@ -60,7 +60,7 @@ HAS_FLAGS = {'adsorbate_to_db', 'material_to_db'}
 
 
 def h_atomic(h, op, overwrite):
-    import pygaps.parsing.sqlite as ps
+    ps = S.fresh_sqlite_module()
     from pygaps.utilities.exceptions import ParsingError
     try:
         cat = catalogue()
